@@ -41,13 +41,13 @@ def request(scripts, schedule):
     return " ".join(toks)
 
 
-def make_deb_run(scripts):
+def make_deb_run(scripts, line_preempt=False):
     from watchdog.utils.event_debouncer import EventDebouncer
 
     def run_one(chooser):
         import time
 
-        sched = detsched.Scheduler(chooser, max_steps=2000)
+        sched = detsched.Scheduler(chooser, max_steps=40000 if line_preempt else 2000, line_preempt=line_preempt)
         hist = []
 
         def cb(events):
@@ -191,7 +191,7 @@ class ProcTable:
         self.log.append(f"kill:{pid}:{sig}@{self.clock()}")
 
 
-def make_trick_run(kind, plan):
+def make_trick_run(kind, plan, line_preempt=False):
     """kind 'restart': plan = {'lifetimes': [...], 'threads': [[ops]], 'debounce': ticks};
     ops: ('event',), ('sleep', d), ('stop',), ('start',)"""
     import watchdog.tricks as tricks
@@ -200,7 +200,7 @@ def make_trick_run(kind, plan):
     def run_one(chooser):
         import time
 
-        sched = detsched.Scheduler(chooser, max_steps=6000)
+        sched = detsched.Scheduler(chooser, max_steps=60000 if line_preempt else 6000, line_preempt=line_preempt)
         log = []
         table = ProcTable(sched, log, plan.get("lifetimes", []))
 
@@ -351,6 +351,9 @@ def run(res, tier, lean, proof_breaks=(), build_log=""):
         ("restart", {"lifetimes": [None] * 5, "debounce": 2,
                      "threads": [[("start",), ("event",), ("event",), ("sleep", 6), ("stop",)]]}),
         ("restart", {"lifetimes": [None] * 5, "threads": [[("start",), ("sleep", 2), ("stop",)], [("sleep", 1), ("event",), ("event",)]]}),
+        ("restart", {"lifetimes": [None] * 5, "threads": [[("start",), ("sleep", 2), ("stop",)], [("sleep", 2), ("event",)]]}),
+        ("restart", {"lifetimes": [2, None, None, None], "threads": [[("start",), ("sleep", 2), ("event",), ("sleep", 3), ("stop",)]]}),
+        ("restart", {"lifetimes": [2, None, None, None], "threads": [[("start",), ("sleep", 2), ("stop",)]]}),
         ("shell", {"lifetimes": [3, 3, 3], "wait": True, "threads": [[("event",), ("event",), ("sleep", 1), ("event",)]]}),
         ("shell", {"lifetimes": [4, 4, 4], "wait": True, "drop": True,
                    "threads": [[("event",), ("event",)], [("sleep", 1), ("event",), ("sleep", 1), ("event",)]]}),
@@ -359,7 +362,9 @@ def run(res, tier, lean, proof_breaks=(), build_log=""):
     for kind, plan in plans:
         run_one = make_trick_run(kind, plan)
         info = {}
-        runs = list(explore.dfs(run_one, 2, 120 if thorough else 25, info)) + list(explore.random_runs(run_one, r, 40 if thorough else 10))
+        runs = list(explore.dfs(run_one, 2, 600 if thorough else 150, info)) + list(explore.random_runs(run_one, r, 100 if thorough else 30))
+        # line-level preemption: interleavings inside the tricks' own (lock-free) check-then-act sequences
+        runs += list(explore.random_runs(make_trick_run(kind, plan, line_preempt=True), r, 150 if thorough else 40, 0.15))
         for sched, result in runs:
             res.count()
             res.bump(f"{kind}_runs")
@@ -368,6 +373,22 @@ def run(res, tier, lean, proof_breaks=(), build_log=""):
             v = (judge_restart if kind == "restart" else judge_shell)(plan, result)
             if v:
                 tjudged.append((kind, plan, result, v))
+    if bad and not judged:
+        # correspondence broken, no explored run violated the property: search on the real code with the judge as oracle
+        searched = 0
+        for name, scripts in deb_scenarios(common.rng("c18"), thorough):
+            if not any(b[3] == name for b in bad):
+                continue
+            runs = list(explore.dfs(make_deb_run(scripts), 3, 400, {})) + \
+                list(explore.random_runs(make_deb_run(scripts, line_preempt=True), r, 120, 0.15))
+            for sched, result in runs:
+                searched += 1
+                v = judge_deb(scripts, result)
+                if v:
+                    judged.append((request(scripts, result["schedule"]), result["line"], "(not replayed)", name, v))
+            if judged:
+                break
+        res.notes["failing_input_search_runs"] = searched
     if judged:
         judged.sort(key=lambda b: len(b[0]))
         line, i, o, name, v = judged[0]
